@@ -277,3 +277,95 @@ func ruleNoNilMapWriteInMain(w *World, r *Run, rule string) {
 		r.Pass(rule, fnMain+" | no entry is written into a nil map", "", "")
 	}
 }
+
+// ruleNoOwnHasher: the module implements no merkle.LogHasher: every log's proofs are verified with the stateless hasher of
+// the merkle library. A hasher of the module's own that keeps a scratch buffer is shared by all logs through the log map:
+// what one log's verification left in it decides another log's.
+func ruleNoOwnHasher(w *World, r *Run, rule string) {
+	m := ifaceMethod(w, "github.com/transparency-dev/merkle", "LogHasher", "HashChildren")
+	if m == nil {
+		r.Undecided(rule, "merkle.LogHasher", "", "interface not found")
+		return
+	}
+	clean := true
+	for _, f := range w.implementations(m) {
+		if w.isProd(f) && f.Synthetic == "" && strings.HasPrefix(pkgPathOf(f), modPath) {
+			clean = false
+			r.Fail(rule, "module | no Merkle hasher implemented outside the merkle library", w.pos(f.Pos()), short(f.String())+" implements merkle.LogHasher: the witness's proof verification for every log then runs through code (and possibly state) of the module's own, shared across logs")
+		}
+	}
+	if clean {
+		r.Pass(rule, "module | no Merkle hasher implemented outside the merkle library", "", "")
+	}
+}
+
+// ruleFetcherStateless: the client's fetch methods keep no mutable state in their receiver: no field is assigned and no
+// buffer held in a field is reset or written (a per-fetcher scratch buffer is shared by every concurrent fetch: one tile's
+// bytes are spliced into another's).
+func ruleFetcherStateless(w *World, r *Run, rule string) {
+	n, bad := 0, 0
+	for _, name := range fetchMethods(w) {
+		mi := strings.LastIndex(name, ").")
+		if mi < 0 {
+			continue
+		}
+		tn := name[strings.LastIndex(name[:mi], ".")+1 : mi]
+		m := ifaceMethod(w, pClient, tn, name[mi+2:])
+		if m == nil {
+			continue
+		}
+		for _, f := range w.implementations(m) {
+			if !w.isProd(f) || f.Synthetic != "" || f.Signature.Recv() == nil || len(f.Params) == 0 {
+				continue
+			}
+			n++
+			recv := ssa.Value(f.Params[0])
+			onRecv := func(v ssa.Value) bool {
+				for i := 0; i < 4; i++ {
+					switch x := v.(type) {
+					case *ssa.FieldAddr:
+						if x.X == recv {
+							return true
+						}
+						v = x.X
+					case *ssa.UnOp:
+						v = x.X
+					default:
+						return false
+					}
+				}
+				return false
+			}
+			for _, b := range f.Blocks {
+				for _, in := range b.Instrs {
+					key := funcName(f) + " | a fetch keeps no state in the fetcher"
+					switch x := in.(type) {
+					case *ssa.Store:
+						if onRecv(x.Addr) {
+							bad++
+							r.Fail(rule, key, w.pos(x.Pos()), "a field of the fetcher is assigned during a fetch: concurrent fetches (tiles of one proof, several feeders on one client) share it")
+						}
+					case ssa.CallInstruction:
+						cc := x.Common()
+						sc := cc.StaticCallee()
+						if sc == nil || sc.Signature.Recv() == nil || len(cc.Args) == 0 || !onRecv(cc.Args[0]) {
+							continue
+						}
+						switch sc.Name() {
+						case "Reset", "Write", "WriteString", "WriteByte", "WriteRune", "ReadFrom", "Grow", "Truncate", "Store", "Add", "Swap":
+							bad++
+							r.Fail(rule, key, w.pos(in.Pos()), short(funcName(sc))+" on a field of the fetcher during a fetch: a scratch buffer or counter held in the fetcher is shared by every concurrent fetch, so one response's bytes end up in another's")
+						}
+					}
+				}
+			}
+		}
+	}
+	if n == 0 {
+		r.Undecided(rule, "implementations of the client's fetch methods", "", "none found")
+		return
+	}
+	if bad == 0 {
+		r.Pass(rule, pClient+" | fetch methods keep no state in the fetcher", "", "")
+	}
+}
